@@ -100,6 +100,10 @@ def run(ctx):
     ext = _load_ext("c01_transfers")
     if ext:
         ext.run_ext(ctx)
+    # extension: oracle services on real ledgers (spec/oraclesvc, harness/c01oraclesvc)
+    ext = _load_ext("c01_oraclesvc")
+    if ext:
+        ext.run_ext(ctx)
 
 
 def _load_ext(name):
